@@ -296,7 +296,17 @@ func gen(fixture string) app {
 		A.Expr = fmt.Sprintf("dir %s", q(a))
 		w("%q", filepath.Dir(a))
 	case "readFile":
-		switch rng.Intn(5) {
+		switch rng.Intn(7) {
+		case 5, 6:
+			// files whose size as reported by stat says nothing about their content (kernel files report 0), and a symlink to a regular file
+			pth := []string{"/proc/sys/kernel/ostype", "/proc/version", filepath.Join(fixture, "link-to-present.txt")}[rng.Intn(3)]
+			if b, err := os.ReadFile(pth); err == nil {
+				A.Expr = fmt.Sprintf("readFile %s", q(pth))
+				w("%q", string(b))
+				A.Class = "stat-size-not-content-length"
+				break
+			}
+			fallthrough
 		case 0:
 			A.Expr = `readFile ""`
 			w("%q", "")
